@@ -449,6 +449,7 @@ class SeqCheck:
         verd_i = run_oracle(m.ORACLE, lines, impl)
         verd_m = run_oracle(m.ORACLE, lines, model)
         proj = getattr(m, "project", project_default)
+        ties = [run_oracle(t, lines, impl) for t in getattr(m, "TIE_ORACLES", ())]
         known = [k for k in load_known() if k.get("property") == pid and k.get("status") == "known"]
         known_ids = set(k["id"] for k in known)
         viol, knownhits, disagree, model_viol = [], {}, [], []
@@ -458,7 +459,7 @@ class SeqCheck:
             oi, om = parse_obs(impl[i]), parse_obs(model[i])
             if lines[i] not in seen:
                 seen.add(lines[i])
-                if m.nontrivial(sc, oi):
+                if m.nontrivial(sc, oi, verd_i[i]):
                     nontriv += 1
             for o_ in set(m.ops_of(sc)):
                 hist[o_] = hist.get(o_, 0) + 1
@@ -468,7 +469,7 @@ class SeqCheck:
                     knownhits.setdefault(cls, []).append(i)
                 else:
                     viol.append(i)
-            if proj(oi) != proj(om):
+            if proj(oi) != proj(om) or any(t[i].startswith("fail") for t in ties):
                 disagree.append(i)
             if verd_m[i].startswith("fail") and not verd_i[i].startswith("fail"):
                 model_viol.append(i)
@@ -525,6 +526,9 @@ class SeqCheck:
             "known_finding_hits": {k: len(v) for k, v in knownhits.items()},
             "operator_histogram": hist, "diff_focus": focus,
             "impl_outcomes": _count(parse_obs(o)["out"] for o in impl),
+            "oracle_verdicts_on_impl": _count(v.split()[0] for v in verd_i),
+            "tie_oracle_verdicts_on_impl": {t: _count(v.split()[0] for v in tv) for t, tv in zip(getattr(m, "TIE_ORACLES", ()), ties)},
+            "case_kinds": _count(str(c[1].get("k", c[1])) for c in cases),
         }
         write_evidence(pid, tier, seed, cov, m.ASSUMPTIONS, wall, 1 if status else 0)
         log("%s: %d scenarios, %d non-trivial, %d impl-oracle failures (%d known), %d impl/model disagreements, proofs %s, %.1fs" % (
